@@ -347,4 +347,12 @@ def rule_g(prog, rep):
         rep.ok('C01.g', 'Store::nmerge', loc(f, sets[0][0]), 'if let Some(entry) = other.take_value() { node.set_value(entry) } - unconditional; merge recounts')
 
 
-RULES = [('C01.g', rule_g), ('C01.f', rule_f), ('C01.a', rule_a), ('C01.b', rule_b), ('C01.c', rule_c), ('C01.e', rule_e)]
+def rule_h(prog, rep):
+    rep.rule('C01.h', 'T1', 'delete removes one entry: Store::ndelete only takes the value at the end of the path (take_value) and prunes '
+             'emptied nodes (trim); it never drops a sub-tree or removes children directly, so the keys below a deleted key stay')
+    from .c04 import single_key_removal_discipline
+    n = single_key_removal_discipline(prog, rep, 'C01.h', ('ndelete',), 'the value')
+    rep.floor('C01.h', n, 2, 'removal operations in ndelete')
+
+
+RULES = [('C01.h', rule_h), ('C01.g', rule_g), ('C01.f', rule_f), ('C01.a', rule_a), ('C01.b', rule_b), ('C01.c', rule_c), ('C01.e', rule_e)]
